@@ -45,7 +45,7 @@ def post_roi(args, kw, res, exc, snap):
         return _mon.skip("compute_reproject_roi", "GCP geobox")
     H, W = src.shape
     ny, nx = dst.shape
-    if 0 in (H, W, ny, nx) or ny * nx > 40000 or H * W > 250000:
+    if 0 in (H, W, ny, nx) or ny * nx > 300000 or H * W > 300000:
         return _mon.skip("compute_reproject_roi", "empty or too large for brute force")
     same = src.crs == dst.crs
     wit = lambda extra=None: {"src": gen.gbox_desc(src), "dst": gen.gbox_desc(dst), "padding": padding, "align": align,
@@ -181,7 +181,7 @@ def drive(mon: Monitor, rng: random.Random, n_same: int, n_cross: int) -> None:
         call(compute_reproject_roi, src, dst, **kw)
     for i in range(n_cross):
         r = random.Random(rng.getrandbits(48))
-        pr = pairs.cross_crs_pair(r)
+        pr = pairs.cross_crs_pair(r) if i % 10 else pairs.cross_crs_pair_large(r)
         if pr is None:
             continue
         src, dst, place = pr
@@ -194,11 +194,33 @@ def drive(mon: Monitor, rng: random.Random, n_same: int, n_cross: int) -> None:
         call(compute_reproject_roi, src, dst, **kw)
 
 
+def curvature_probes(mon: Monitor) -> None:
+    """Fixed many-pixel pairs where a projected source edge bows past its own corners by several destination pixels."""
+    from affine import Affine
+    from odc.geo.geobox import GeoBox
+    from odc.geo.overlap import compute_reproject_roi
+
+    P = [
+        (GeoBox((300, 300), Affine(1000, 0, 350_000, 0, -1000, 6_800_000), "EPSG:32633"), GeoBox((450, 600), Affine(0.02, 0, 9.0, 0, -0.02, 64.0), "EPSG:4326")),
+        (GeoBox((200, 400), Affine(0.05, 0, 0.0, 0, -0.05, 60.0), "EPSG:4326"), GeoBox((500, 560), Affine(5000, 0, 2_600_000, 0, -5000, 4_600_000), "EPSG:3035")),
+        (GeoBox((256, 256), Affine(10_000, 0, -1_280_000, 0, 10_000, 6_000_000), "EPSG:3857"), GeoBox((500, 500), Affine(0.1, 0, -25.0, 0, -0.1, 75.0), "EPSG:4326")),
+        (GeoBox((240, 300), Affine(4000, 0, -900_000, 0, -4000, -2_000_000), "EPSG:3577"), GeoBox((480, 560), Affine(0.04, 0, 118.0, 0, -0.04, -12.0), "EPSG:4326")),
+        (GeoBox((200, 200), Affine(2000, 0, 1_400_000, 0, -2000, 5_400_000), "EPSG:2193"), GeoBox((500, 500), Affine(0.015, 0, 169.5, 0, -0.015, -39.0), "EPSG:4326")),
+        (GeoBox((300, 260), Affine(1000, 0, 350_000, 0, -1000, 6_800_000), "EPSG:32633"), GeoBox((520, 520), Affine(1500, 0, 4_200_000, 0, -1500, 4_500_000), "EPSG:3035")),
+    ]
+    for src, dst in P:
+        for kw in ({}, {"padding": 0}, {"padding": 2, "align": 16}):
+            call(compute_reproject_roi, src, dst, **kw)
+            mon.obs["curvature_probes"] += 1
+
+
 def run(mon: Monitor, tier: str, seed: int, shard: int, nshards: int) -> None:
     install(mon)
     try:
         rng = random.Random(seed * 1000 + shard + 3)
         q = tier == "quick"
+        if shard == 0:
+            curvature_probes(mon)
         drive(mon, rng, 3500 if q else 60000, 500 if q else 8000)
         mon.notes["indirect"] = "compute_reproject_roi has no caller inside odc-geo at this commit (it is public API for loaders); only direct calls are observed"
         for pt, n in [("compute_reproject_roi", 2500), ("compute_reproject_roi|same-crs|contained", 100), ("compute_reproject_roi|same-crs|partial", 300), ("compute_reproject_roi|same-crs|disjoint", 100),
